@@ -69,6 +69,7 @@ class C06(c01.C01):
             out.filters[f] += 1
             return
         want = observe.dobs(doc)
+        observe.export_decoy("provn")
         try:
             fresh_text = doc.get_provn()
             observe.touch(doc)  # reading a record through its accessors must not change what is printed
